@@ -11,7 +11,8 @@ WorkflowAction.schedule / resolve_workflow_definition.
 """
 import json
 
-GEN = ['subwf_facts']
+GEN = ['subwf_facts', 'race_scripts']
+LEAN_MODULES = ['Mistral.Props.C09', 'Mistral.Props.C03RaceTask']
 MANIFEST = {
     'technique': 'Lean 4 theorems over an executable model of the sub-workflow start and hand-off path '
                  '(name resolution incl. str.rstrip as a character set, root id / namespace / env propagation, '
@@ -29,9 +30,19 @@ MANIFEST = {
             'resolve_workflow_definition and WorkflowAction.schedule vs the model on generated names/inputs; real '
             'engine runs (nesting <=3, plain and with-items callers, by name / workbook-relative / expression, both '
             'start_subworkflows_via_rpc settings, namespaces, root env, child success/error/cancel, stop of a child, '
-            'random schedules, duplicated child-result messages) vs the model row by row.',
-    'note': 'Transactions are atomic and serialised as in one engine process: the CAS in Workflow.set_state is '
-            'modelled (theorem report_once) but a multi-process race on it is not exhibited by the harness; SQL '
+            'random schedules, duplicated child-result messages) vs the model row by row. STATEMENT GRANULARITY '
+            '(docs/RACE.md), parent side of report_once: Mistral.Props.C03RaceTask over the script of Task.complete / '
+            'Task.set_state REGENERATED from tasks.py (RegularTask.on_action_complete ends in it for child-workflow results): '
+            'for ALL interference task_complete_atomic, task_keeps_finished, dispatch_only_by_winner, dispatch_at_most_once '
+            '(the same child result delivered concurrently by two engines: one compare-and-swap on the parent task row '
+            'wins, only the winner runs the completion logic); tie: race-task stream (the real child-result message with '
+            'the real duplicate committed by a second session at every pre-lock SQL statement on the task row). The child '
+            'side (set_state CAS, one result message registered by the winner only) is Props.C03Race *_atomic (C03, C11).',
+    'note': 'In Mistral.SubWf transactions are atomic and serialised as in one engine process; the multi-process race on '
+            'the CAS of Workflow.set_state (child side) and of Task.set_state (parent side, plain tasks) IS exhibited at '
+            'SQL-statement granularity (Mistral.Race, race-wf / race-task streams); NOT for with-items parents '
+            '(WithItemsTask.on_action_complete under its named lock) and not for positions after the first successful '
+            'write (row-lock wait: modelled, sqlite cannot execute it); SQL '
             'semantics of load_workflow_definition are exercised only by the engine stream; YAQL/Jinja, PyYAML, '
             'jsonschema trusted; Lean kernel + propext/Classical.choice/Quot.sound',
 }
@@ -65,12 +76,17 @@ def _sizes(ctx):
 def correspond(ctx):
     from vlib import par
     par.run_parallel(ctx, 'harness.subwf_stream', 'run_chunk', [_sizes(ctx)] * 14)
+    # statement granularity: two engines deliver the same child result / a racing completion of the parent task
+    par.run_parallel(ctx, 'harness.race_driver', 'run_chunk', [{'family': 'task'}])
 
 
 def search(ctx):
     """Failing-input search after a broken obligation / disagreement: the monitors of all three streams on a
     widened population (more cases, more reserved keys, more operator stops); the corpus witnesses run again."""
     from vlib import par
+    par.run_parallel(ctx, 'harness.race_driver', 'run_chunk', [{'family': 'task'}])
+    if ctx.violations:
+        return
     kw = {'n_resolve': 4000, 'n_schedule': 3000, 'n_tree': 120,
           'gen_kw': {'p_reserved': 0.15, 'p_dotted': 0.05, 'p_stop': 0.35}}
     seed = ctx.seed
